@@ -57,7 +57,7 @@ PROPS = {
         "race": True, "race_share": 0.4,
     },
     "C11": {
-        "autoyield": ["lib/concurrent/concurrent.go"],
+        "autoyield": ["lib/concurrent/concurrent.go", "env/env.go"],
         "level": "exploration",
         "design_ref": "DESIGN.md §5.3",
         "technique": "deterministic simulation: N programs on one environment under seeded schedules; solo-run refinement + leak probes + definition atomicity + race detector",
